@@ -360,6 +360,10 @@ class UFunc(Model):
         elif name in PRED:
             res = (PRED[name], vals[0] - vals[1])
             dtype = "bool"
+        elif name == "logical_not" and len(args) == 1 and isinstance(args[0], RawV) and isinstance(args[0].r, tuple) and args[0].r[0] in PRED.values():
+            flip = {"lt": "ge", "ge": "lt", "gt": "le", "le": "gt", "eq": "ne", "ne": "eq"}
+            res = (flip[args[0].r[0]], args[0].r[1])          # element-wise negation of a comparison (NaN aside)
+            dtype = "bool"
         elif name in ("abs", "absolute", "fabs") and len(vals) == 1:
             res = rat(Poly.sym(Fn("abs", repr(vals[0]))))       # |x|: another value than x (x may be negative)
             dtype = "float64"
@@ -1783,11 +1787,20 @@ def check_dot_shapes(run, tree):
     def mk(hk, tag, unit, shape):
         comps = {c: arr(tree, hk, tag + c, unit, shape=shape) for c in "xyz"}
         return ModelEval(tree, tree.method(vi, "__init__"), {}, hk).instantiate(vi, [], dict(comps), None)
-    for sa_, sb_ in (((2, 3), (3,)), ((3,), (2, 3)), ((2, 3), ()), ((4, 2, 3), (2, 3)), ((1, 4), (4,)), ((2, 5), (5,)), ((3,), (3,))):
-        construct = "%s.dot[shapes %s . %s]" % (VECTOR_Q, sa_, sb_)
+    def mk_late(hk, tag, unit, shape):
+        # built from x alone; z attached first, then y (client code that fills components as they become available)
+        v = ModelEval(tree, tree.method(vi, "__init__"), {}, hk).instantiate(vi, [], {"x": arr(tree, hk, tag + "x", unit, shape=shape)}, None)
+        ev = ModelEval(tree, tree.method(vi, "__init__"), {}, hk)
+        ev.obj_setattr(v, "z", arr(tree, hk, tag + "z", unit, shape=shape))
+        ev.obj_setattr(v, "y", arr(tree, hk, tag + "y", unit, shape=shape))
+        return v
+    for sa_, sb_ in (((2, 3), (3,)), ((3,), (2, 3)), ((2, 3), ()), ((4, 2, 3), (2, 3)), ((1, 4), (4,)), ((2, 5), (5,)), ((3,), (3,)), ((3,), "late")):
+        late = sb_ == "late"
+        sb_ = sa_ if late else sb_
+        construct = "%s.dot[shapes %s . %s%s]" % (VECTOR_Q, sa_, sb_, "; the left Vector had z attached before y" if late else "")
         try:
             hk = stack_hooks(tree)
-            a, b = mk(hk, "A", "m", sa_), mk(hk, "B", "cm", sb_)
+            a, b = (mk_late if late else mk)(hk, "A", "m", sa_), mk(hk, "B", "cm", sb_)
             want_shape = bshape(sa_, sb_)
             want = rat(0)
             for c in "xyz":
